@@ -91,6 +91,7 @@ def execute(cfg):
     rec["dist2"] = fr.back_d2(r).tolist()
     rec["exact"] = bool(fr.exact and consistent)
     rec["resid"] = fr.resid
+    rec["same_as_get_distances"] = True
     # the distance table of get_distances must be the same table (unbounded cutoff)
     if cfg["c2x2"] == -1 and n >= 1:
         from ase import Atoms
@@ -98,7 +99,7 @@ def execute(cfg):
         at = Atoms(numbers=[6] * n, positions=P, cell=C, pbc=pbc)
         try:
             dm = matid.geometry.get_distances(at).dist_matrix_mic
-            rec["exact"] = bool(rec["exact"] and np.allclose(dm, dist, rtol=0, atol=1e-9, equal_nan=True))
+            rec["same_as_get_distances"] = bool(np.allclose(dm, dist, rtol=0, atol=1e-9, equal_nan=True))
         except Exception as e:
             rec["error"] = "get_distances %s: %s" % (type(e).__name__, e)
     return rec
